@@ -195,6 +195,15 @@ class Writer:
                        [('subcategorizationFrame', fr['subcategorizationFrame']),
                         ('senses', ' '.join(fr['senses']) if fr.get('senses') else None)])
         self.close(2, name)
+        if ext and self.style.get('dup_stubs'):
+            # the same base entry mentioned again (one block per contributor): a bare stub
+            # that only names the entry and its external senses adds nothing
+            stubs = [s_ for s_ in e.get('senses', []) if s_.get('external')]
+            if stubs:
+                self.open(2, name, pairs)
+                for s_ in stubs:
+                    self.empty(3, 'ExternalSense', [('id', s_['id'])])
+                self.close(2, name)
 
     def example(self, depth, ex):
         self.textelem(depth, 'Example',
@@ -336,6 +345,66 @@ def _mkpkg(dirpath, fname, data, extras=True):
     return dirpath
 
 
+def gz_variant(data: bytes, k: int) -> bytes:
+    """The same content as different (all valid) gzip files: how the container was encoded is
+    the packager's choice - compression level, a file name and time stamp in the header,
+    several members."""
+    v = k % 5
+    if v == 0:
+        return gzip.compress(data, mtime=0)
+    if v == 1:
+        return gzip.compress(data, compresslevel=1, mtime=1700000000)
+    if v == 2:
+        buf = io.BytesIO()
+        with gzip.GzipFile(filename='original name.xml', mode='wb', fileobj=buf,
+                           compresslevel=9, mtime=0) as f:
+            f.write(data)
+        return buf.getvalue()
+    if v == 3:
+        cut = max(1, len(data) // 2)          # cat a.gz b.gz > file.gz
+        return gzip.compress(data[:cut], mtime=0) + gzip.compress(data[cut:], mtime=0)
+    return gzip.compress(data, compresslevel=0, mtime=0)         # stored, not deflated
+
+
+def xz_variant(data: bytes, k: int) -> bytes:
+    """The same content as different (all valid) xz files: preset, integrity check, several
+    streams, and the dictionary size `xz -9` declares (64 MiB)."""
+    v = k % 6
+    if v == 0:
+        return lzma.compress(data)
+    if v == 1:
+        return lzma.compress(data, preset=0, check=lzma.CHECK_CRC32)
+    if v == 2:
+        return lzma.compress(data, check=lzma.CHECK_SHA256)
+    if v == 3:
+        cut = max(1, len(data) // 2)
+        return lzma.compress(data[:cut]) + lzma.compress(data[cut:], check=lzma.CHECK_NONE)
+    if v == 4:
+        return _xz_declare_dict(lzma.compress(data, preset=1), 28)     # 64 MiB, as xz -9
+    return _xz_declare_dict(lzma.compress(data, preset=6), 26)         # 32 MiB, as xz -8
+
+
+def _xz_declare_dict(blob: bytes, code: int) -> bytes:
+    """Rewrite the LZMA2 dictionary size declared in the (single) block header of an xz
+    stream - the decoder's memory need follows the declaration, not the data - and fix the
+    header's CRC32.  A stream may declare a larger dictionary than its encoder used."""
+    import zlib
+    b = bytearray(blob)
+    off = 12                                   # stream header: magic(6) flags(2) crc32(4)
+    hlen = (b[off] + 1) * 4
+    hdr = b[off:off + hlen]
+    # size byte, flags (one filter, no sizes), filter id 0x21, props size 1, props
+    if hdr[1] & 0xc3 != 0 or hdr[2] != 0x21 or hdr[3] != 1:
+        return blob
+    hdr[4] = code
+    crc = zlib.crc32(bytes(hdr[:-4])) & 0xffffffff
+    hdr[-4:] = crc.to_bytes(4, 'little')
+    b[off:off + hlen] = hdr
+    out = bytes(b)
+    assert lzma.decompress(out) == lzma.decompress(blob)
+    return out
+
+
 def _tar(dst, src, mode):
     with tarfile.open(dst, mode) as t:
         if os.path.isfile(src) and not dst.endswith('.txz'):
@@ -358,9 +427,9 @@ def package(route: str, workdir: str, name: str, data: bytes, ext: str = '.xml',
     if route == 'xml':
         return _write(os.path.join(workdir, fname), data)
     if route == 'gz':
-        return _write(os.path.join(workdir, fname + '.gz'), gzip.compress(data, mtime=0))
+        return _write(os.path.join(workdir, fname + '.gz'), gz_variant(data, len(data) + len(name)))
     if route == 'xz':
-        return _write(os.path.join(workdir, fname + '.xz'), lzma.compress(data))
+        return _write(os.path.join(workdir, fname + '.xz'), xz_variant(data, len(data) + len(name)))
     if route == 'pkg':
         return _mkpkg(os.path.join(workdir, name + '-pkg'), fname, data)
     if route == 'col' or route.endswith('-col'):
